@@ -37,7 +37,7 @@ FAULTS = [
     "none", "truncate", "truncate_boundary", "flip_bit", "set_byte", "add_byte", "int_field", "u32_field", "delete_range", "dup_range",
     "swap_ranges", "zero_fill", "splice_same", "splice_other", "append_garbage", "empty", "whitespace", "random_bytes", "token_soup",
     "side_missing", "side_truncated", "side_swapped", "stream_eio", "stream_eof", "stream_closed", "multi_flip", "len_field", "many_lines_one_long",
-    "token_copy", "json_field", "container_inner", "amplifier",
+    "token_copy", "json_field", "container_inner", "amplifier", "uri_special",
 ]
 CONTAINERS = {"3mf", "glb", "zip_stl", "zip_ply", "zip_glb", "zip_obj_mtl", "targz_obj", "tarbz2_ply", "bz2_stl"}
 TEXTUAL = {"gltf", "dae", "svg", "dxf", "obj", "obj_mtl", "off", "ply_ascii", "stl_ascii", "dict", "dict64", "xyz"}
@@ -118,6 +118,8 @@ def apply_fault(data, f, other=b""):
         return data
     if k == "token_copy":
         return token_copy(data, f)
+    if k == "uri_special":
+        return uri_special(data, f)
     if k == "json_field":
         return json_field(data, f)
     if k == "container_inner":
@@ -244,6 +246,21 @@ def token_copy(data, f):
         src = r.choice(near) if near and r.random() < 0.5 else r.choice(same)
         return data[: dst.start()] + src.group() + data[dst.end():]
     return data
+
+
+_URI = re.compile(rb'("uri"\s*:\s*")([^"]{1,200})(")|((?:mtllib|map_Kd|map_Ka|map_Ks|map_bump)[ \t]+)([^\r\n]{1,200})()|(<init_from>)([^<]{1,200})(</init_from>)')
+
+
+def uri_special(data, f):
+    """Point a reference to a side file (glTF uri, OBJ mtllib / texture map, COLLADA image) at a file that is not a regular file and
+    never ends. Loading by path hands such references to the file-system resolver."""
+    ms = list(_URI.finditer(data[:262144]))
+    if not ms:
+        return data
+    m = ms[f.get("j", 0) % len(ms)]
+    g = 1 if m.group(1) is not None else (4 if m.group(4) is not None else 7)
+    target = [b"/dev/zero", b"/dev/zero", b"../../../../../../dev/zero", b"/dev/urandom"][f.get("salt", 0) % 4]
+    return data[: m.start(g + 1)] + target + data[m.end(g + 1):]
 
 
 def json_field(data, f):
@@ -430,8 +447,9 @@ class C20(World):
     WALL = {"quick": 115.0, "thorough": 1700.0}
     BLOCK = 40
     BLOCK_TIMEOUT = 300
+    WORKER_ADDRESS_SPACE = 10 * 2**30  # per worker: an endless read or a runaway allocation ends in MemoryError, not in a dead sandbox
     RULE = (
-        "one evaluation = one valid payload (36 kind/format pipes, or one of ~90 small model files of the tree under test) + 2-8 load attempts each under one storage or stream fault (32 kinds; in the thorough "
+        "one evaluation = one valid payload (36 kind/format pipes, or one of ~90 small model files of the tree under test) + 2-8 load attempts each under one storage or stream fault (33 kinds; in the thorough "
         "tier truncation is enumerated at every offset for payloads <= 4 KiB) x 4 loader entry points x 3 transports; distinct_nontrivial counts distinct "
         "(format, fault kind, route, transport, outcome class) tuples observed"
     )
@@ -569,6 +587,8 @@ class C20(World):
                 kind = "container_inner"
             elif cfg["fmt"] in TEXTUAL and u < 0.12:
                 kind = "token_copy" if u < 0.08 else "json_field"
+            elif cfg["fmt"] in ("gltf", "obj_mtl", "obj", "dae") and u < 0.2:
+                kind = "uri_special"
             ops.append({"op": "attempt", "fault": self._gen_fault(rng, kind, cfg["fmt"]), "route": rng.choice(cfg["routes"]), "transport": rng.choice(["bytesio", "simfile", "path"]), "rs": rng.randrange(2**31)})
         ops.append({"op": "valid_after", "rs": rng.randrange(2**31)})
         return {"config": cfg, "ops": ops}
@@ -681,7 +701,8 @@ class C20(World):
                 files[s] = data[: len(files[s])]
         else:
             files[main] = apply_fault(data, f, other)
-        if cfg.get("stack"):
+        if cfg.get("stack") and k != "amplifier":
+            # (an amplifier replaces the payload: it is not a corruption to build further corruptions on)
             st["files"] = dict(files)
         return files, f
 
@@ -694,6 +715,8 @@ class C20(World):
         if kind.startswith("stream_"):
             transport = "simfile"
             stream_fault = {"kind": {"stream_eio": "eio", "stream_eof": "eof", "stream_closed": "close"}[kind], "n": f.get("n", 1)}
+        if kind == "uri_special" and ft not in ("dict", "dict64"):
+            transport = "path"  # side files are then fetched by the file-system resolver
         if ft in ("dict", "dict64"):
             transport = "bytesio"
         total = sum(len(v) for v in files.values())
